@@ -5,7 +5,10 @@ no Unicode-driven shaping, and un-augmented for the real cmap formats; plus vari
 synthetic `kern` table; variable fonts given vertical-metrics variations in the shapes the corpus lacks
 (VVAR with implicit advance-height mapping, VOrgMap/TsbMap rows interleaved with the advance rows); and
 generated fonts (vmon/gen/c07_fea.py) whose contextual rules call shared nested lookups while the glyphs
-those depend on are produced by later lookups of an earlier shaping stage) × random requests × random option combinations, driven through the real
+those depend on are produced by later lookups of an earlier shaping stage; generated variable fonts with several
+overlapping FeatureVariationRecords (vmon/gen/c07_fvars.py), shaped in every cell of the condition grid; generated
+CFF fonts with seac-style accented glyphs (vmon/gen/c07_cff.py); corpus fonts whose format-12 and format-4 Unicode
+subtables disagree on BMP code points) × random requests × random option combinations, driven through the real
 `Subsetter`.  Monitors sit on `Subsetter.subset`, `_closure_glyphs`, every per-table
 `closure_glyphs/subset_glyphs/prune_*` method the subsetter registers on table classes,
 `Lookup.subset_glyphs/closure_glyphs` (per lookup type/format) and `VarStore.subset_varidxes`.
@@ -49,7 +52,7 @@ REQUIRED_MONITORS = [
 ]
 CASE_TIMEOUT = 240
 MANIFEST = {
-    "text": "Exploration: corpus fonts with layout tables, kern, variations, COLR or MATH (PUA-augmented and plain; variable fonts also with derived VVAR shapes: implicit advance-height map, VOrgMap/TsbMap interleaved with advance rows) and feaLib-compiled generated fonts whose closure needs several rounds (contextual rules calling shared nested ligature/single/multiple/contextual lookups, producers in later lookups of an earlier shaping stage) are subset through the real Subsetter with random requests (unicode sets, singletons, all-but-one, glyph names, glyph ids, text, everything) and random option combinations; monitors on Subsetter.subset/_closure_glyphs, every per-table closure/subset/prune method, Lookup-level per-type counters and VarStore.subset_varidxes. Each saved subset is judged by HarfBuzz (presence, differential shaping over all short texts of retained characters, outlines/advances/COLR/MATH by glyph name at default and random locations) and by a struct-level glyph-id reference sweep. Tests cannot settle this because closure and remapping depend on the requested set and the suite only diffs about 86 fixed cases against stored TTX.",
+    "text": "Exploration: corpus fonts with layout tables, kern, variations, COLR or MATH (PUA-augmented and plain; variable fonts also with derived VVAR shapes: implicit advance-height map, VOrgMap/TsbMap interleaved with advance rows) and feaLib-compiled generated fonts whose closure needs several rounds (contextual rules calling shared nested ligature/single/multiple/contextual lookups, producers in later lookups of an earlier shaping stage), generated variable fonts with 2-4 overlapping FeatureVariationRecords over 1-2 axes (features dropped by the request so that leading/middle records empty out; shaped in every cell of the condition grid), generated CFF fonts with seac-style endchar accents with and without explicit width, and corpus fonts given disagreeing format-4/format-12 Unicode subtables (BMP-only requests) are subset through the real Subsetter with random requests (unicode sets, singletons, all-but-one, glyph names, glyph ids, text, everything) and random option combinations; monitors on Subsetter.subset/_closure_glyphs, every per-table closure/subset/prune method, Lookup-level per-type counters and VarStore.subset_varidxes. Each saved subset is judged by HarfBuzz (presence, differential shaping over all short texts of retained characters, outlines/advances/COLR/MATH by glyph name at default and random locations) and by a struct-level glyph-id reference sweep. Tests cannot settle this because closure and remapping depend on the requested set and the suite only diffs about 86 fixed cases against stored TTX.",
     "note": "Trusted base: HarfBuzz 12.1, vmon/oracle/c07_refsweep.py (spec-written reader), geom.py. Preconditions: texts only over requested+present code points without Unicode-driven shaping side effects; intentionally dropped behaviour (feature tags, --no-layout-closure, legacy kern, .notdef outline) is removed from the original's expectation as well; notdef_glyph=False and AAT/Graphite fonts not generated.",
     "technique": "monitors on the real subsetter functions; differential shaping and rendering through HarfBuzz; independent struct-level reference sweep",
     "design_ref": "DESIGN.md §4 C07",
@@ -307,6 +310,15 @@ def cases(tier, seed):
         if rec["variable"] and set(rec["tables"]) & {"VVAR", "HVAR"} and rec["size"] < 100000:
             for b in range(6 if T else 2):
                 add(rec, "vvar", b, 5 if T else 3)
+    # corpus fonts whose format-12 and format-4 Unicode subtables disagree on some BMP code points
+    for rec in recs:
+        if rec["size"] < 100000 and (T or rnd.random() < 0.15):
+            add(rec, "cmapmix", 0, 4 if T else 2)
+    # generated variable fonts with several overlapping FeatureVariationRecords; generated CFF fonts with seac accents
+    for gname, nq, nt, dq, dt in (("genfv", 40, 300, 3, 6), ("gencff", 30, 200, 3, 5)):
+        for k in range(nt if T else nq):
+            out.append({"id": "%s:%d" % (gname, k), "path": "gen:%s/%d" % (gname, k), "member": None, "variant": gname, "gen": k,
+                        "batch": 0, "n": dt if T else dq, "seed": seed, "tier": tier, "timeout": CASE_TIMEOUT})
     # generated fonts whose glyph closure needs several rounds (shared nested lookups, producers in later lookups)
     for k in range(400 if T else 50):
         out.append({"id": "genfea:%d" % k, "path": "gen:c07_fea/%d" % k, "member": None, "variant": "genfea", "gen": k,
@@ -402,6 +414,39 @@ def _derive_vvar(f, rnd):
     return shape
 
 
+def _mix_cmap(f, rnd):
+    """Unicode cmap in the shape real fonts have after only the 'modern' subtable was updated: a format-4 BMP
+    subtable and a format-12 full-repertoire sibling that map some BMP code points to *different* glyphs.
+    Every glyph gets U+E000+gid (both subtables; the format-12 one sometimes names another glyph) and
+    U+F0000+gid (format 12 only)."""
+    from fontTools.ttLib.tables._c_m_a_p import CmapSubtable
+
+    order = f.getGlyphOrder()
+    n = len(order)
+    best = {}
+    try:
+        best = dict(f.getBestCmap() or {})
+    except Exception:
+        best = {}
+    f4 = {c: g for c, g in best.items() if c <= 0xFFFF}
+    f12 = dict(best)
+    for gid, g in enumerate(order[:0x1800]):
+        f4[0xE000 + gid] = g
+        f12[0xE000 + gid] = order[(gid * 7 + 3) % n] if rnd.random() < 0.3 else g
+        f12[corpus.PUA + gid] = g
+    tabs = []
+    pairs = [((3, 1), (3, 10))]
+    if rnd.random() < 0.5:
+        pairs.append(((0, 3), (0, 4)))
+    for (p4, e4), (p12, e12) in pairs:
+        for fmt, pid, eid, m in ((4, p4, e4, f4), (12, p12, e12, f12)):
+            st = CmapSubtable.newSubtable(fmt)
+            st.platformID, st.platEncID, st.language = pid, eid, 0
+            st.cmap = dict(m)
+            tabs.append(st)
+    f["cmap"].tables = tabs
+
+
 def _build_original(case):
     v = case["variant"]
     if v == "genfea":
@@ -414,7 +459,27 @@ def _build_original(case):
         order = list(f.getGlyphOrder())
         f.close()
         return data, order
+    if v in ("genfv", "gencff"):
+        from vmon.gen import c07_cff, c07_fvars
+
+        G = c07_fvars if v == "genfv" else c07_cff
+        prog = G.program(random.Random("%s/%s/%s" % (v, case["gen"], case["seed"])))
+        case["_prog"] = prog
+        data = G.build(prog)
+        f = corpus.open_bytes(data)
+        order = list(f.getGlyphOrder())
+        f.close()
+        return data, order
     data0 = corpus.font_bytes(case["path"], case["member"])
+    if v == "cmapmix":
+        f = corpus.open_bytes(data0)
+        _mix_cmap(f, random.Random("cmapmix/%s/%s" % (case["path"], case["seed"])))
+        data = corpus.save_bytes(f)
+        f.close()
+        f = corpus.open_bytes(data)
+        order = list(f.getGlyphOrder())
+        f.close()
+        return data, order
     if v == "plain":
         f = corpus.open_bytes(data0)
         order = list(f.getGlyphOrder())
@@ -593,7 +658,11 @@ def _run(case, ctx):
         if g:
             nominal[c] = g
     cps_all = [c for c in cps_all if c in nominal]
-    if case["variant"] != "plain":
+    bmp_pool = None
+    if case["variant"] == "cmapmix":
+        cps_req_pool = [c for c in cps_all if c >= H.PUA or 0xE000 <= c <= 0xF8FF]
+        bmp_pool = [c for c in cps_all if 0xE000 <= c <= 0xF8FF]
+    elif case["variant"] != "plain":
         cps_req_pool = [c for c in cps_all if c >= H.PUA]
     else:
         cps_req_pool = cps_all
@@ -618,7 +687,8 @@ def _run(case, ctx):
         kind = rnd.choice(_KINDS)
         if case["batch"] == 0 and k == 0:
             kind = "unicodes"
-        req = _draw_request(rnd, kind, cps_req_pool, nominal, orig_order, relevant)
+        pool = bmp_pool if (bmp_pool and rnd.random() < 0.7) else cps_req_pool   # BMP-only requests: format 12 may become redundant
+        req = _draw_request(rnd, kind, pool, nominal, orig_order, relevant)
         if gdef_cps and kind in ("unicodes", "text", "mixed") and rnd.random() < 0.7:
             # keep a GDEF-classified glyph so that the class table (and HarfBuzz' use of it) survives
             extra = rnd.choice(gdef_cps)
@@ -629,6 +699,9 @@ def _run(case, ctx):
         optd = _draw_options(rnd, S0, tables0, len(orig_order))
         if case["variant"] == "vvar" and rnd.random() < 0.35:
             optd["retain_gids"] = True
+        if case["variant"] == "genfv" and rnd.random() < 0.6:
+            tg = case["_prog"]["tags"]
+            optd["layout_features"] = sorted(rnd.sample(tg, rnd.randint(1, max(1, len(tg) - 1))))
         try:
             _one(case, ctx, rnd, kind, req, optd, orig_bytes, orig_order, oindex, S0, h0, nominal, tables0, bad_tables0, nokern_cache)
         except LibRaised:
@@ -819,6 +892,9 @@ def _one(case, ctx, rnd, kind, req, optd, orig_bytes, orig_order, oindex, S0, h0
         names = rnd.sample(names, cap)
     hc = H.HB(cmp_bytes) if cmp_bytes is not orig_bytes else h0
     locs = H.axis_locations(hc, rnd, n_random=1 if quick else 2, corners=not quick)
+    if case["variant"] == "genfv":
+        cells = case["_prog"]["cells"]
+        locs = [None] + (cells if len(cells) <= (7 if quick else 14) else rnd.sample(cells, 7 if quick else 14))
     variable = len(locs) > 1
     vertical = "vmtx" in tables0 and "vmtx" in S1.tables
     if vertical and "VVAR" in tables0 and "VVAR" in S1.tables:
@@ -928,7 +1004,7 @@ def _shaping(case, ctx, rnd, opts, chars, S0, S1, cmp_bytes, sub_bytes, orig_ord
     if "*" not in opts.layout_scripts:
         scripts = [s for s in scripts if s.strip() in opts.layout_scripts]
     configs = []
-    for ci in range(2 if quick else 3):
+    for ci in range(len(locs) if case["variant"] == "genfv" else (2 if quick else 3)):
         f = dict(feats)
         for t in sorted(kept):
             if t not in f and rnd.random() < 0.5:
